@@ -29,7 +29,9 @@ RULE = ("(a) Hypothesis token soup from an iCalendar dictionary (BEGIN:/END: wit
         "well-formed calendar K with a VEVENT and a VTODO and a candidate line L, L is 'unparsable' iff inserting it into the VTODO "
         "makes the parse raise ValueError; then inserting L anywhere among the VEVENT's own lines must succeed, leave every "
         "component's extraction equal to K's and add exactly one entry to that event's error list (none elsewhere); a parsable L "
-        "must add no error entry; inside a VALARM nested in the VEVENT an unparsable L makes the parse fail. Non-trivial: input that "
+        "must add no error entry; inside a VALARM nested in the VEVENT an unparsable L makes the parse fail; a line without any "
+        "property name (no word character, or starting with a delimiter) must be unparsable; whatever the VEVENT variant returns "
+        "must serialise. Non-trivial: input that "
         "gets past the BEGIN of one component; distinct by hash of the input.")
 ASSUMPTIONS = ["inputs <= 8 KiB, nesting <= 64", "a CPU-time bound stands for 'terminates'"]
 REQUIRED_CLASSES = ["gen:soup", "gen:fixture", "gen:hostile", "gen:isolate", "isolate:unparsable-line", "isolate:parsable-line", "hostile:tzid", "hostile:vtimezone"]
